@@ -169,6 +169,16 @@ type Policy struct {
 	Hidden bool
 	// HiddenSeed varies only the content of hidden / unexported fields.
 	HiddenSeed int64
+	// AltTag is the key of the alternate struct tag ("" = "alt"); any key
+	// reflect.StructTag accepts is allowed (x-filter, bexpr.v2, BEXPR, ...).
+	AltTag string
+}
+
+func (p Policy) altTag() string {
+	if p.AltTag == "" {
+		return "alt"
+	}
+	return p.AltTag
 }
 
 var PolicyNames = []string{"iface", "iface+json.Number", "typed", "typed+pointers", "mixed"}
@@ -570,15 +580,15 @@ func (rp *repr) obj(d *Doc, mode int) *Node {
 				var f Field
 				switch r.Intn(6) {
 				case 0:
-					f = Field{Name: fmt.Sprintf("Hidden%d", len(fields)), Tag: `bexpr:"-" alt:"-"`, Type: []*Type{TString, TInt, SliceOf(TString)}[r.Intn(3)]}
+					f = Field{Name: fmt.Sprintf("Hidden%d", len(fields)), Tag: `bexpr:"-" ` + rp.pol.altTag() + `:"-"`, Type: []*Type{TString, TInt, SliceOf(TString)}[r.Intn(3)]}
 				case 1:
 					f = Field{Name: fmt.Sprintf("secret%d", len(fields)), Type: []*Type{TString, TInt}[r.Intn(2)], Unexported: true}
 				case 2:
 					name := fmt.Sprintf("BHidden%d", len(fields))
-					f = Field{Name: name, Tag: `bexpr:"-" alt:"` + strings.ToLower(name) + `"`, Type: []*Type{TString, TInt}[r.Intn(2)]}
+					f = Field{Name: name, Tag: `bexpr:"-" ` + rp.pol.altTag() + `:"` + strings.ToLower(name) + `"`, Type: []*Type{TString, TInt}[r.Intn(2)]}
 				case 3:
 					name := fmt.Sprintf("AHidden%d", len(fields))
-					f = Field{Name: name, Tag: `bexpr:"` + strings.ToLower(name) + `" alt:"-"`, Type: []*Type{TString, TInt}[r.Intn(2)]}
+					f = Field{Name: name, Tag: `bexpr:"` + strings.ToLower(name) + `" ` + rp.pol.altTag() + `:"-"`, Type: []*Type{TString, TInt}[r.Intn(2)]}
 				default:
 					return
 				}
@@ -606,7 +616,7 @@ func (rp *repr) obj(d *Doc, mode int) *Node {
 					if tag != "" {
 						tag += " "
 					}
-					tag += `alt:"alt_` + k + `"`
+					tag += rp.pol.altTag() + `:"alt_` + k + `"`
 				}
 				fields = append(fields, Field{Name: name, Tag: tag, Type: v.T})
 				vals = append(vals, v)
